@@ -194,7 +194,7 @@ func equal(lhsV, rhsV reflect.Value) bool {
 	}
 
 	if isNum(lhsV) && isNum(rhsV) {
-		return fmt.Sprintf("%v", lhsV) == fmt.Sprintf("%v", rhsV)
+		return numText(lhsV) == numText(rhsV)
 	}
 
 	if r, done := boolEquals(lhsV, rhsV); done {
@@ -205,6 +205,23 @@ func equal(lhsV, rhsV reflect.Value) bool {
 		return lhsV.Pointer() == rhsV.Pointer()
 	}
 	return reflect.DeepEqual(lhsV.Interface(), rhsV.Interface())
+}
+
+// numText renders the number itself. fmt would call the String/Error/Format method of a named numeric type
+// (an enum that prints "unknown" for several values, os.FileMode, a rounded temperature), and different numbers
+// would then compare equal.
+func numText(v reflect.Value) string {
+	switch v.Kind() {
+	case reflect.Int, reflect.Int8, reflect.Int16, reflect.Int32, reflect.Int64:
+		return strconv.FormatInt(v.Int(), 10)
+	case reflect.Uint, reflect.Uint8, reflect.Uint16, reflect.Uint32, reflect.Uint64, reflect.Uintptr:
+		return strconv.FormatUint(v.Uint(), 10)
+	case reflect.Float32:
+		return strconv.FormatFloat(v.Float(), 'g', -1, 32)
+	case reflect.Float64:
+		return strconv.FormatFloat(v.Float(), 'g', -1, 64)
+	}
+	return fmt.Sprintf("%v", v)
 }
 
 func boolEquals(lhsV reflect.Value, rhsV reflect.Value) (bool, bool) {
